@@ -17,11 +17,18 @@ ENV.pop("GOWORK", None)
 
 
 def sh(cmd, cwd, timeout=1800):
-    p = subprocess.run(cmd, shell=True, cwd=cwd, env=ENV, stdout=subprocess.PIPE, stderr=subprocess.STDOUT, text=True, timeout=timeout)
+    # private TMPDIR: some baseline tests list osv-scalibr-* entries of the temp dir and are flaky
+    # when other worktrees run the same tests concurrently
+    env = dict(ENV, TMPDIR=PRIV_TMP) if PRIV_TMP else ENV
+    p = subprocess.run(cmd, shell=True, cwd=cwd, env=env, stdout=subprocess.PIPE, stderr=subprocess.STDOUT, text=True, timeout=timeout)
     return p.returncode, p.stdout
 
 
+PRIV_TMP = None
+
+
 def main():
+    global PRIV_TMP
     prop, which = sys.argv[1], sys.argv[2]
     suite = "--no-suite" not in sys.argv
     r2 = "--round2" in sys.argv
@@ -29,6 +36,9 @@ def main():
     sid = f"{prop}-{ {'A': 'C', 'B': 'D'}[which] }" if r2 else f"{prop}-{which}"
     wt = f"/tmp/seedv/{sid}"
     os.makedirs("/tmp/seedv", exist_ok=True)
+    PRIV_TMP = f"/tmp/seedv/tmp-{sid}"
+    shutil.rmtree(PRIV_TMP, ignore_errors=True)
+    os.makedirs(PRIV_TMP, exist_ok=True)
     if os.path.exists(wt):
         subprocess.run(["git", "-C", "/repo", "worktree", "remove", "--force", wt])
     subprocess.check_call(["git", "-C", "/repo", "worktree", "add", "-q", "--detach", wt, "HEAD"])
@@ -113,6 +123,7 @@ def main():
         meta["rejected"] = str(e)
     finally:
         subprocess.run(["git", "-C", "/repo", "worktree", "remove", "--force", wt])
+        shutil.rmtree(PRIV_TMP, ignore_errors=True)
     out = f"/verif/seeded/{sid}"
     if meta["confirmed"]:
         os.makedirs(out, exist_ok=True)
